@@ -862,6 +862,37 @@ def c14_refusals(seed, tier):
                         R.fail("block-device-output-wrong", req)
                     if os.path.exists(outp):
                         os.unlink(outp)
+            # the same two rows on REAL block devices (loop devices, when one can be attached): smaller than the
+            # source - refused, content untouched; large enough - cloned, nothing beyond the source length touched
+            if rep == 0:
+                dsrc = rng.randbytes(4096 + 700)
+                darch, dapath, dcfg, dhl = make_archive(W, rng, dsrc)
+                for dev_size, refused in ((4096, True), (8192, False)):
+                    prior = rng.randbytes(dev_size)
+                    backing = W.write(prior, ".blk")
+                    try:
+                        pl = subprocess.run(["losetup", "-f", "--show", backing], stdout=subprocess.PIPE, stderr=subprocess.PIPE, timeout=20)
+                        dev = pl.stdout.decode().strip() if pl.returncode == 0 else None
+                    except (OSError, subprocess.TimeoutExpired):
+                        dev = None
+                    if not dev or not os.path.exists(dev):
+                        R.stat("real_block_device_rows_skipped_no_loop_device")
+                        break
+                    try:
+                        cls, rc, so, se = clone_cli(W, dapath, dev, force=True)
+                        with open(dev, "rb") as fdev:
+                            after = fdev.read()
+                        req = "cli-clone --force-create onto a real block device (loop) of %d bytes, source of %d bytes" % (dev_size, len(dsrc))
+                        R.stat("real_block_device_rows")
+                        if refused:
+                            if cls == "ok":
+                                R.fail("refusal-expected-but-clone-succeeded", req)
+                            if after != prior:
+                                R.fail("refused-operation-changed-the-output", req)
+                        elif cls != "ok" or after[:len(dsrc)] != dsrc or after[len(dsrc):] != prior[len(dsrc):]:
+                            R.fail("block-device-output-wrong", req)
+                    finally:
+                        subprocess.run(["losetup", "-d", dev], stdout=subprocess.PIPE, stderr=subprocess.PIPE)
             # compress: existing output without / with --force-create; invalid input
             for exists in (False, True):
                 for force in (False, True):
